@@ -1,5 +1,50 @@
 (* Run/RunC01.v — C01 evaluates its reference HIRs through the regex semantics entry of RunC11
-   (kind 1103); it has no model kinds of its own. *)
-From RG Require Import Base.Bytes Base.Val.
+   (kind 1103).  Its own kind:
+     102  smart case: (uppers icase smart ast) -> (any_uppercase any_literal case_insensitive)
+          Model/SmartCase.v from_ast / is_case_insensitive on the AST the harness obtained from the
+          regex-syntax parser (harness/src/c01.rs kind 102); `uppers` = the literal code points of the
+          pattern for which std's char::is_uppercase answers true.
+          ast  ::= (0 tag) | (1 c) | (2 negated cls) | (3 ast) | (4 ast) | (5 (ast ..)) | (6 (ast ..))
+                   other     literal  bracketed class   repetition group   alternation  concatenation
+          cls  ::= (0 tag) | (1 c) | (2 start end) | (3 negated cls) | (4 (cls ..)) | (5 cls cls)
+                   other     literal  range            nested class      union       binary set operation *)
+From RG Require Import Base.Bytes Base.Val Model.SmartCase.
 
-Definition entry (k : N) (v : val) : option val := None.
+Fixpoint decode_cls (v : val) : cls :=
+  match v with
+  | VL (VN t :: args) =>
+    if (t =? 1)%N then CLit (as_N (nth 0 args (VN 0)))
+    else if (t =? 2)%N then CRange (as_N (nth 0 args (VN 0))) (as_N (nth 1 args (VN 0)))
+    else if (t =? 3)%N then
+      match args with [n; k] => CBracketed (as_bool n) (decode_cls k) | _ => COther 99 end
+    else if (t =? 4)%N then
+      match args with [VL items] => CUnion (map decode_cls items) | _ => COther 99 end
+    else if (t =? 5)%N then
+      match args with [l; r] => CBinOp (decode_cls l) (decode_cls r) | _ => COther 99 end
+    else COther (as_N (nth 0 args (VN 0)))
+  | _ => COther 99
+  end.
+
+Fixpoint decode_sast (v : val) : sast :=
+  match v with
+  | VL (VN t :: args) =>
+    if (t =? 1)%N then SLit (as_N (nth 0 args (VN 0)))
+    else if (t =? 2)%N then
+      match args with [n; k] => SClass (as_bool n) (decode_cls k) | _ => SOther 99 end
+    else if (t =? 3)%N then match args with [a] => SRep (decode_sast a) | _ => SOther 99 end
+    else if (t =? 4)%N then match args with [a] => SGroup (decode_sast a) | _ => SOther 99 end
+    else if (t =? 5)%N then match args with [VL l] => SAlt (map decode_sast l) | _ => SOther 99 end
+    else if (t =? 6)%N then match args with [VL l] => SConcat (map decode_sast l) | _ => SOther 99 end
+    else SOther (as_N (nth 0 args (VN 0)))
+  | _ => SOther 99
+  end.
+
+Definition run_smart (v : val) : val :=
+  let ups := as_bytes (fld 0 v) in
+  let upper := fun c => existsb (N.eqb c) ups in
+  let a := from_ast upper (decode_sast (fld 3 v)) in
+  VL [of_bool (any_uppercase a); of_bool (any_literal a);
+      of_bool (is_case_insensitive (as_bool (fld 1 v)) (as_bool (fld 2 v)) a)].
+
+Definition entry (k : N) (v : val) : option val :=
+  if (k =? 102)%N then Some (run_smart v) else None.
